@@ -340,6 +340,30 @@ func c30(x *Ctx) {
 			gb, ok2 := b.(*ssa.UnOp)
 			return ok1 && ok2 && ga.X == gb.X
 		}
+		// the decrement stored into a counter: `x - period`, possibly wrapped in max(…, 0) (decrement and clamp in one)
+		subOf := func(v ssa.Value) (*ssa.BinOp, bool) {
+			if bo, ok := v.(*ssa.BinOp); ok && bo.Op == token.SUB {
+				return bo, false
+			}
+			if cl, ok := v.(*ssa.Call); ok {
+				if bi, ok := cl.Call.Value.(*ssa.Builtin); ok && bi.Name() == "max" {
+					var sub *ssa.BinOp
+					zero := false
+					for _, a := range cl.Call.Args {
+						if bo, ok := a.(*ssa.BinOp); ok && bo.Op == token.SUB {
+							sub = bo
+						}
+						if k, ok := eng.ConstInt(a); ok && k == 0 {
+							zero = true
+						}
+					}
+					if sub != nil {
+						return sub, zero
+					}
+				}
+			}
+			return nil, false
+		}
 		var decs []*ssa.MapUpdate
 		eng.Instrs(f, func(in ssa.Instruction) {
 			if mu, ok := isUpd(in, "timeLeft"); ok {
@@ -348,8 +372,8 @@ func c30(x *Ctx) {
 		})
 		nDec := 0
 		for _, mu := range decs {
-			bo, ok := mu.Value.(*ssa.BinOp)
-			if !ok || bo.Op != token.SUB {
+			bo, _ := subOf(mu.Value)
+			if bo == nil {
 				continue
 			}
 			nDec++
@@ -363,15 +387,20 @@ func c30(x *Ctx) {
 		// only positive counters are decremented (0 = dead and -1 = not yet reported keep their meaning)
 		c.Examined++
 		r := eng.Explore(eng.Query{Fn: f, Assume: &eng.Assume{Bool: func(v ssa.Value) eng.Tri {
-			if b, ok := v.(*ssa.BinOp); ok && b.Op == token.GTR {
-				if k, isK := eng.ConstInt(b.Y); isK && k == 0 && strings.HasSuffix(b.X.Type().String(), "time.Duration") {
-					return eng.False
+			if b, ok := v.(*ssa.BinOp); ok && strings.HasSuffix(b.X.Type().String(), "time.Duration") {
+				if k, isK := eng.ConstInt(b.Y); isK && k == 0 {
+					switch b.Op {
+					case token.GTR:
+						return eng.False // the counter is not positive
+					case token.LEQ:
+						return eng.True
+					}
 				}
 			}
 			return eng.Unknown
 		}}, Classify: func(in ssa.Instruction, _ eng.Facts) eng.Event {
 			if mu, ok := isUpd(in, "timeLeft"); ok {
-				if bo, ok := mu.Value.(*ssa.BinOp); ok && bo.Op == token.SUB {
+				if bo, _ := subOf(mu.Value); bo != nil {
 					return eng.EvSink
 				}
 			}
@@ -383,6 +412,9 @@ func c30(x *Ctx) {
 		clamp := false
 		for _, mu := range decs {
 			if k, ok := eng.ConstInt(mu.Value); ok && k == 0 {
+				clamp = true
+			}
+			if _, clamped := subOf(mu.Value); clamped {
 				clamp = true
 			}
 		}
